@@ -27,6 +27,7 @@ FUNCTIONS = ["ioflo.base.framing.Frame.enter/exit/recur/segueAuxes/checkEnter", 
              "ioflo.base.building.Builder.build (concrete text)"]
 ASSUMPTIONS = [
     "program family: one framer of N frames (arbitrary forest, arbitrary first), 1 transition optionally guarded by a done-condition, 1-2 plain auxiliaries "
+    "(aux3 variant: three frames, done on the middle frame followed by a further transition, so completion must survive the auxiliary's own later transitions) "
     "(own originals, or the same original on two frames) of two frames with 'done me' on the second",
     "share values are integers in [0,1]; start tick concrete (all guards true), later ticks fully symbolic",
     "hosts that put one original on two frames of the same outline are assumed away here (that defect is reported by C08's known finding)",
@@ -34,9 +35,9 @@ ASSUMPTIONS = [
 ]
 
 
-def h(sym, n, auxes, symticks, parent, done_need, end, force_same=False):
+def h(sym, n, auxes, symticks, parent, done_need, end, force_same=False, aux_frames=2):
     prog, info = flostep.family(sym, n, ngo=1, auxes=auxes, parent=parent, near_in_cur=True, host_in_cur=False,
-                                done_need=done_need, force_same=force_same)
+                                done_need=done_need, force_same=force_same, aux_frames=aux_frames)
     hosts = {}
     for (name, kind, host) in info["aux"]:
         hosts.setdefault("f%d" % host, []).append(name)
@@ -129,17 +130,19 @@ def h(sym, n, auxes, symticks, parent, done_need, end, force_same=False):
 def obligations(tier):
     out = []
     if tier == "quick":
-        cfgs = [(3, ("plain",), 1, (0, 2, 3), STOP), (3, ("plain", "plain"), 1, False, None)]
+        cfgs = [(3, ("plain",), 1, (0, 2, 3), STOP), (3, ("plain", "plain"), 1, False, None), (2, ("plain",), 3, (2, 3), None, 3)]
     else:
         cfgs = [(3, ("plain",), 3, True, STOP), (4, ("plain",), 2, True, ABORT), (3, ("plain", "plain"), 2, True, STOP),
-                (4, ("plain", "plain"), 1, False, None)]
-    for (n, auxes, symticks, done_need, end) in cfgs:
-        for parent in (flostep.QUICK_FORESTS[n] if tier == "quick" else flostep.all_forests(n)):
-            out.append(Ob("step/N%d-%s-sym%d-%s-%s/%s" % (n, "+".join(auxes), symticks, "doneneed" if done_need else "plaingo",
+                (4, ("plain", "plain"), 1, False, None), (2, ("plain",), 4, True, STOP, 3), (3, ("plain",), 3, (2, 3), None, 3)]
+    for cfg in cfgs:
+        (n, auxes, symticks, done_need, end) = cfg[:5]
+        aux_frames = cfg[5] if len(cfg) > 5 else 2
+        for parent in (flostep.QUICK_FORESTS.get(n, flostep.all_forests(n)) if tier == "quick" else flostep.all_forests(n)):
+            out.append(Ob("step/N%d-%s%s-sym%d-%s-%s/%s" % (n, "+".join(auxes), "-aux3" if aux_frames == 3 else "", symticks, "doneneed" if done_need else "plaingo",
                                                         {None: "run", 0: "stop", 3: "abort"}[end],
                                                         "".join("r" if q < 0 else str(q) for q in parent)),
                           h, dict(n=n, auxes=auxes, symticks=symticks, parent=parent, done_need=done_need, end=end,
-                                  force_same=(tier == "quick")),
+                                  force_same=(tier == "quick"), aux_frames=aux_frames),
                           budget=500 if tier == "quick" else 1500, covers=["aux-entered-with-host"],
                           bounds=dict(frames=n, forest=parent, first="any", auxes=list(auxes), symbolic_ticks=symticks,
                                       share_values="[0,1]")))
